@@ -82,8 +82,8 @@ fn print_code_location(
 			out,
 			"{}:{}-{}:{}",
 			start.line,
-			end.column.saturating_sub(1),
-			start.line,
+			start.column.saturating_sub(1),
+			end.line,
 			end.column
 		)?;
 	}
